@@ -108,8 +108,10 @@ def _run_cargo(repo, config, out, target_dir, mir_text):
     return subprocess.run(cmd, env=env, capture_output=True, text=True, cwd=DRIVER_DIR)
 
 
-def extract(config="default", repo=None, verbose=False):
-    """Returns (path of the fact file, info dict).  Raises RuntimeError when /repo does not compile."""
+def extract(config="default", repo=None, verbose=False, tag=None):
+    """Returns (path of the fact file, info dict).  Raises RuntimeError when /repo does not compile.
+    `repo` + `tag`: analyse another crate directory whose package is named `wax` (self-test fixtures,
+    scratch copies of /repo with a seeded change)."""
     repo = repo or REPO
     ensure_driver()
     os.makedirs(os.path.join(CACHE, "facts"), exist_ok=True)
@@ -117,11 +119,11 @@ def extract(config="default", repo=None, verbose=False):
     with open(os.path.join(CACHE, "lock-extract"), "w") as lock:
         fcntl.flock(lock, fcntl.LOCK_EX)
         key = _hash_tree(repo, config)
-        out = os.path.join(CACHE, "facts", "%s-%s.json" % (config, key))
+        out = os.path.join(CACHE, "facts", "%s%s-%s.json" % ((tag + "-") if tag else "", config, key))
         if os.path.exists(out) and os.environ.get("VERIF_NO_CACHE") != "1":
             return out, {"cached": True, "hash": key, "wall_s": time.time() - t0}
         # Cargo's freshness cache would skip the wrapper for an unchanged crate: forget wax's fingerprint.
-        target_dir = os.path.join(CACHE, "target-" + config)
+        target_dir = os.path.join(CACHE, "target-" + ((tag + "-") if tag and tag.startswith("fixture") else "") + config)
         fp = os.path.join(target_dir, "debug", ".fingerprint")
         if os.path.isdir(fp):
             for n in os.listdir(fp):
@@ -146,7 +148,7 @@ def extract(config="default", repo=None, verbose=False):
         # keep the cache small: at most 12 fact files
         files = sorted((os.path.join(CACHE, "facts", n) for n in os.listdir(os.path.join(CACHE, "facts"))),
                        key=os.path.getmtime)
-        for old in files[:-12]:
+        for old in files[:-24]:
             try:
                 os.remove(old)
             except OSError:
